@@ -131,7 +131,7 @@ class Unit:
 
     def emit_item(self, s, rel, what, block, tline):
         toks = what.split()
-        pat = r"\b" + r"\s+".join(re.escape(t) for t in toks) + r"\b"
+        pat = r"(?<!\w)" + r"\s+".join(re.escape(t) for t in toks) + r"(?!\w)"
         hits = [m for m in re.finditer(pat, s.masked)
                 if s.masked[:m.start()].count("{") == s.masked[:m.start()].count("}")]
         if len(hits) != 1:
